@@ -442,78 +442,76 @@ def optNat : Option Nat → Obj
   | none => .nil
   | some n => .int n
 
-namespace Seq
 
-def position (kw : Kw) (tg : Target) (s : Seq) : Except Err Obj := do
+def positionS (kw : Kw) (tg : Target) (s : Seq) : Except Err Obj := do
   let (a, b) ← bounds kw.start kw.stop s.elems.length
-  pure (optNat (SlipVerif.Seq.position (kw.matcher tg) a b kw.fromEnd s.toList))
+  pure (optNat (position (kw.matcher tg) a b kw.fromEnd s.toList))
 
-def find (kw : Kw) (tg : Target) (s : Seq) : Except Err Obj := do
+def findS (kw : Kw) (tg : Target) (s : Seq) : Except Err Obj := do
   let (a, b) ← bounds kw.start kw.stop s.elems.length
-  pure (optObj (SlipVerif.Seq.find (kw.matcher tg) a b kw.fromEnd s.toList))
+  pure (optObj (find (kw.matcher tg) a b kw.fromEnd s.toList))
 
-def count (kw : Kw) (tg : Target) (s : Seq) : Except Err Obj := do
+def countS (kw : Kw) (tg : Target) (s : Seq) : Except Err Obj := do
   let (a, b) ← bounds kw.start kw.stop s.elems.length
-  pure (.int (SlipVerif.Seq.count (kw.matcher tg) a b s.toList))
+  pure (.int (count (kw.matcher tg) a b s.toList))
 
-def remove (kw : Kw) (tg : Target) (s : Seq) : Except Err Seq := do
+def removeS (kw : Kw) (tg : Target) (s : Seq) : Except Err Seq := do
   let (a, b) ← bounds kw.start kw.stop s.elems.length
-  Seq.ofList s.kind (SlipVerif.Seq.remove (kw.matcher tg) a b kw.count kw.fromEnd s.toList)
+  Seq.ofList s.kind (remove (kw.matcher tg) a b kw.count kw.fromEnd s.toList)
 
-def substitute (new : Obj) (kw : Kw) (tg : Target) (s : Seq) : Except Err Seq := do
+def substituteS (new : Obj) (kw : Kw) (tg : Target) (s : Seq) : Except Err Seq := do
   let (a, b) ← bounds kw.start kw.stop s.elems.length
-  Seq.ofList s.kind (SlipVerif.Seq.substitute new (kw.matcher tg) a b kw.count kw.fromEnd s.toList)
+  Seq.ofList s.kind (substitute new (kw.matcher tg) a b kw.count kw.fromEnd s.toList)
 
-def removeDuplicates (kw : Kw) (s : Seq) : Except Err Seq := do
+def removeDuplicatesS (kw : Kw) (s : Seq) : Except Err Seq := do
   let (a, b) ← bounds kw.start kw.stop s.elems.length
-  Seq.ofList s.kind (SlipVerif.Seq.removeDuplicates kw.eqv a b kw.fromEnd s.toList)
+  Seq.ofList s.kind (removeDuplicates kw.eqv a b kw.fromEnd s.toList)
 
-def subseq (start : Nat) (stop : Option Nat) (s : Seq) : Except Err Seq := do
+def subseqS (start : Nat) (stop : Option Nat) (s : Seq) : Except Err Seq := do
   let (a, b) ← bounds start stop s.elems.length
-  Seq.ofList s.kind (SlipVerif.Seq.subseq a b s.toList)
+  Seq.ofList s.kind (subseq a b s.toList)
 
-def fill (item : Obj) (start : Nat) (stop : Option Nat) (s : Seq) : Except Err Seq := do
+def fillS (item : Obj) (start : Nat) (stop : Option Nat) (s : Seq) : Except Err Seq := do
   let (a, b) ← bounds start stop s.elems.length
-  Seq.ofList s.kind (SlipVerif.Seq.fill item a b s.toList)
+  Seq.ofList s.kind (fill item a b s.toList)
 
-def replace (start1 : Nat) (stop1 : Option Nat) (start2 : Nat) (stop2 : Option Nat) (s1 s2 : Seq) :
+def replaceS (start1 : Nat) (stop1 : Option Nat) (start2 : Nat) (stop2 : Option Nat) (s1 s2 : Seq) :
     Except Err Seq := do
   let (a1, b1) ← bounds start1 stop1 s1.elems.length
   let (a2, b2) ← bounds start2 stop2 s2.elems.length
-  Seq.ofList s1.kind (SlipVerif.Seq.replace a1 b1 a2 b2 s1.toList s2.toList)
+  Seq.ofList s1.kind (replace a1 b1 a2 b2 s1.toList s2.toList)
 
-def reverse (s : Seq) : Except Err Seq := Seq.ofList s.kind s.toList.reverse
+def reverseS (s : Seq) : Except Err Seq := Seq.ofList s.kind s.toList.reverse
 
-def search (kw : Kw) (start1 : Nat) (stop1 : Option Nat) (start2 : Nat) (stop2 : Option Nat) (s1 s2 : Seq) :
+def searchS (kw : Kw) (start1 : Nat) (stop1 : Option Nat) (start2 : Nat) (stop2 : Option Nat) (s1 s2 : Seq) :
     Except Err Obj := do
   let (a1, b1) ← bounds start1 stop1 s1.elems.length
   let (a2, b2) ← bounds start2 stop2 s2.elems.length
-  pure (optNat (SlipVerif.Seq.search kw.eqv a1 b1 a2 b2 kw.fromEnd s1.toList s2.toList))
+  pure (optNat (search kw.eqv a1 b1 a2 b2 kw.fromEnd s1.toList s2.toList))
 
-def mismatch (kw : Kw) (start1 : Nat) (stop1 : Option Nat) (start2 : Nat) (stop2 : Option Nat) (s1 s2 : Seq) :
+def mismatchS (kw : Kw) (start1 : Nat) (stop1 : Option Nat) (start2 : Nat) (stop2 : Option Nat) (s1 s2 : Seq) :
     Except Err Obj := do
   let (a1, b1) ← bounds start1 stop1 s1.elems.length
   let (a2, b2) ← bounds start2 stop2 s2.elems.length
-  pure (optNat (SlipVerif.Seq.mismatch kw.eqv a1 b1 a2 b2 kw.fromEnd s1.toList s2.toList))
+  pure (optNat (mismatch kw.eqv a1 b1 a2 b2 kw.fromEnd s1.toList s2.toList))
 
-def stableSort (lt : Obj → Obj → Bool) (key : Obj → Obj) (s : Seq) : Except Err Seq :=
-  Seq.ofList s.kind (SlipVerif.Seq.stableSort lt key s.toList)
+def stableSortS (lt : Obj → Obj → Bool) (key : Obj → Obj) (s : Seq) : Except Err Seq :=
+  Seq.ofList s.kind (stableSort lt key s.toList)
 
-def merge (rtype : Kind) (lt : Obj → Obj → Bool) (key : Obj → Obj) (s1 s2 : Seq) : Except Err Seq :=
-  Seq.ofList rtype (SlipVerif.Seq.merge lt key s1.toList s2.toList)
+def mergeS (rtype : Kind) (lt : Obj → Obj → Bool) (key : Obj → Obj) (s1 s2 : Seq) : Except Err Seq :=
+  Seq.ofList rtype (merge lt key s1.toList s2.toList)
 
-def concatenate (rtype : Kind) (ss : List Seq) : Except Err Seq :=
+def concatenateS (rtype : Kind) (ss : List Seq) : Except Err Seq :=
   Seq.ofList rtype (ss.flatMap Seq.toList)
 
-def map (rtype : Kind) (f : List Obj → Obj) (ss : List Seq) : Except Err Seq :=
+def mapS (rtype : Kind) (f : List Obj → Obj) (ss : List Seq) : Except Err Seq :=
   Seq.ofList rtype ((tuples (ss.map Seq.toList)).map f)
 
-def reduce (f : Obj → Obj → Obj) (f0 : Obj) (key : Obj → Obj) (init : Option Obj) (fromEnd : Bool)
+def reduceS (f : Obj → Obj → Obj) (f0 : Obj) (key : Obj → Obj) (init : Option Obj) (fromEnd : Bool)
     (start : Nat) (stop : Option Nat) (s : Seq) : Except Err Obj := do
   let (a, b) ← bounds start stop s.elems.length
-  pure (SlipVerif.Seq.reduce f f0 init fromEnd ((mid a b s.toList).map key))
+  pure (reduce f f0 init fromEnd ((mid a b s.toList).map key))
 
-end Seq
 
 /-! list-only functions (member, assoc, rassoc, set functions, every…) work on `List Obj` directly. -/
 
